@@ -640,6 +640,14 @@ def discharge_partial(an, prog, b, blk, t, c, cls, why):
         idx = [str(a) for a in (c.args or []) + (c.syn_args or [])]
         if any(a.strip() == "std::ops::RangeFull" for a in idx):
             return True, "total index: `x[..]` (RangeFull) selects the whole array/slice and cannot be out of range"
+        # `&s[s.len()..]`: the empty tail of a slice is always in range
+        if re.search(r"::index(_mut)?$", c.npath) and len(t["args"]) == 2:
+            rng = peel(an.op(b, t["args"][1]))
+            if rng[0] == "agg" and str(rng[1]).endswith("ops::RangeFrom") and rng[3]:
+                recv = canon(peel(an.op(b, t["args"][0]), widen=True)).lstrip("&*")
+                st0 = peel(rng[3][0], widen=True)
+                if st0[0] == "call" and st0[2] is not None and st0[2].npath.endswith("<impl [T]>::len") and st0[3] and canon(peel(st0[3][0], widen=True)).lstrip("&*") == recv:
+                    return True, "`s[s.len()..]`: the start is the slice's own length"
         # `s.split_at(n)` / `s.split_at_mut(n)` with n = s.len(), or n = min(.., s.len()): mid <= len by construction
         if re.search(r"<impl \[T\]>::split_at(_mut)?$", c.npath) and len(t["args"]) == 2:
             recv = canon(peel(an.op(b, t["args"][0]), widen=True)).lstrip("&*")
@@ -652,6 +660,16 @@ def discharge_partial(an, prog, b, blk, t, c, cls, why):
                 return True, "split_at(s.len()): the split point is the slice's own length"
             if mid[0] == "call" and mid[2] is not None and (mid[2].nsyn in ("std::cmp::Ord::min", "std::cmp::min") or mid[2].npath.endswith("::min")) and any(is_len_of_recv(a) for a in mid[3]):
                 return True, "split_at(min(.., s.len())): the split point is bounded by the slice's own length"
+    if cls == "index" and re.search(r"<impl \[T\]>::(chunks|chunks_mut|chunks_exact|chunks_exact_mut|rchunks|rchunks_exact|windows)$", c.npath) and len(t["args"]) == 2:
+        # documented panic: the chunk / window size is 0
+        sz = const_eval(peel(an.op(b, t["args"][1]), widen=True))
+        if sz and 0 not in sz:
+            return True, "chunk size is the non-zero constant %s" % sorted(sz)
+    if cls == "documented" and re.search(r"<impl char>::(to_digit|is_digit)$", c.npath) and len(t["args"]) == 2:
+        # documented panic: radix > 36
+        rx = const_eval(peel(an.op(b, t["args"][1]), widen=True))
+        if rx and max(rx) <= 36:
+            return True, "radix is the constant %s (<= 36)" % sorted(rx)
     if cls == "documented" and re.search(r"<impl \[T\]>::(sort|sort_unstable|sort_by_key|sort_unstable_by_key|sort_by_cached_key|binary_search_by_key)$", c.npath):
         # documented panic: "may panic if the implementation of Ord for K is not a total order".  Keys that are
         # integers, std types or crate types with a derived Ord are totally ordered; floats have no Ord, and a
